@@ -2,8 +2,6 @@ SPECIFICATION Spec
 INVARIANT Inv
 CHECK_DEADLOCK FALSE
 CONSTANTS
-  TagPositions = {1,2,3,4,5,6,7,8,9,10,11,12,13,14,15,16}
-  Families = {"aead", "siv"}
   PermOp <- SPermOp
   BX <- SBX
   BC <- SBC
